@@ -38,7 +38,7 @@ def load_contracts():
 
 def _work(task):
     """Worker: one (function, contract) pair -> list of result dicts."""
-    key, ci, timeout_ms, label = task
+    key, ci, timeout_ms, label, chunk, block = task
     import z3  # noqa
     from pyvc.engine import Executor
     from pyvc.verify import verify_function
@@ -50,12 +50,14 @@ def _work(task):
         if fi is None:
             return dict(key=key, ci=ci, error=f'anchor-missing: {key} not found in the working tree', results=[], label=label)
         ex = Executor(_REPO, REG)
-        obs, err = verify_function(ex, fi, c, label=label)
+        obs, err = verify_function(ex, fi, c, label=label, chunk=chunk, block=block)
         results = []
         for ob in obs:
             r = solve(ob, timeout_ms=c.timeout or timeout_ms)
             r.update(name=ob.name, kind=ob.kind, clause=(ob.info or {}).get('clause') or (ob.info or {}).get('why'),
                      size=len(ob.assumptions))
+            if r['status'] != 'proved':
+                r['case'] = f"{(ob.info or {}).get('top_case', '')} {r.get('case', '')}".strip()
             results.append(r)
         return dict(key=key, ci=ci, error=err, results=results, label=label, body_hash=fi.body_hash(),
                     inlined=sorted(ex.inlined), assumed_used=sorted(ex.assumed_used), notes=sorted(set(ex.notes)),
@@ -97,7 +99,14 @@ def run(pid, tier, seed=0, jobs=None, only=None, verbose=False):
                 if only and only not in key:
                     continue
                 label = c.name or key.split(':')[1]
-                tasks.append((key, i, timeout_ms, label))
+                if c.cases:
+                    nchunk = 32
+                    for ch in range(nchunk):
+                        tasks.append((key, i, timeout_ms, label, (ch, nchunk), None))
+                else:
+                    tasks.append((key, i, timeout_ms, label, None, None))
+                for bname in (c.blocks or {}):
+                    tasks.append((key, i, timeout_ms, label, None, bname))
     assumed = sorted({key for key, cs in REG.contracts.items() for c in cs if pid in c.props and c.assumed})
     jobs = jobs or min(16, max(1, len(tasks)))
     if jobs > 1 and len(tasks) > 1:
@@ -126,8 +135,12 @@ def summarise(pid, tier, seed, outs, lemma_results, assumed, wall, verbose):
             continue
         if o['error']:
             errors.append((o['key'], o['error']))
-        funcs.append(dict(function=o['key'], label=o['label'], body_sha256_16=o.get('body_hash'),
-                          path_outcomes=o.get('paths')))
+        prev = [f for f in funcs if f['function'] == o['key'] and f['label'] == o['label']]
+        if prev:
+            prev[0]['path_outcomes'] = (prev[0]['path_outcomes'] or 0) + (o.get('paths') or 0)
+        else:
+            funcs.append(dict(function=o['key'], label=o['label'], body_sha256_16=o.get('body_hash'),
+                              path_outcomes=o.get('paths')))
         inlined |= set(o.get('inlined', []))
         assumed_used |= set(o.get('assumed_used', []))
         notes |= set(o.get('notes', []))
@@ -147,8 +160,10 @@ def summarise(pid, tier, seed, outs, lemma_results, assumed, wall, verbose):
                 e['status'] = 'refuted'
                 e['model'] = e['model'] or r.get('smt_model')
                 e['model_dict'] = e.get('model_dict') or r.get('model')
+                e['case'] = e.get('case') or r.get('case')
             elif r['status'] == 'unknown' and e['status'] == 'proved':
                 e['status'] = 'unknown'
+                e['case'] = r.get('case')
     for lr in lemma_results:
         e = dict(name='lemma/' + lr['name'], kind='lemma', clause=lr.get('statement'), instances=1,
                  status=lr['status'], backends={lr['backend']}, fn='(lemma library)', model=lr.get('model'), max_size=0)
